@@ -409,9 +409,13 @@ class Render:
         elif k < 0.77:
             self.kw("inherited")
             self.emit(" ")
-            self.ref("self", q=False)
-            self.emit(".")
+            if r.random() < 0.8:
+                self.ref("self", q=False)
+                self.emit(".")
+            # (else: the short form `inherited X` without a receiver)
             self.ref(S.vary(r, self.me.name) if r.random() < 0.85 else "Other")
+            if r.random() < 0.2:
+                self.emit("(1)")
             self.nl()
         elif k < 0.84 and self.tvba:
             self.ref(S.vary(r, "Purge"), q=False)
